@@ -399,12 +399,15 @@ type httpPoolSpec struct {
 	Instances int
 	Tokens    int // once(Tokens) shared profile
 	RPS       map[string]interface{}
+	CancelAt  time.Duration // >0: the caller cancels the run at this simulated instant
 	Files     map[string][]byte
 	Horizon   time.Duration
 	Stalls    bool
 }
 
 type httpPoolResult struct {
+	CancelSeq uint64 // >0: the caller's cancel happened (sequence stamp / instant)
+	CancelT   time.Duration
 	RunErr    error
 	RunDone   bool
 	WaitDone  bool
@@ -465,6 +468,17 @@ func runHTTPPool(r *R, sp httpPoolSpec, netSetup func(n *simnet.Net), prepare fu
 		eng := engine.New(zap.NewNop(), newMetrics(), engine.Config{Pools: conf.Pools})
 		ctx, cancel := context.WithCancel(context.Background())
 		defer cancel()
+		if sp.CancelAt > 0 {
+			go func() {
+				time.Sleep(sp.CancelAt)
+				if res.RunDone {
+					return
+				}
+				res.CancelSeq = simrt.Seq()
+				res.CancelT = time.Since(t0)
+				cancel()
+			}()
+		}
 		res.RunErr = eng.Run(ctx)
 		res.RunAt = time.Since(t0)
 		res.RunDone = true
